@@ -236,7 +236,7 @@ def run(tier, cmd):
                 cmd, trusted_base=TRUSTED + ['Rust aliasing rules: a &mut to one array element cannot reach another element (no unsafe code in the crate, C04 R4.1)'],
                 assumptions=['channel() classification of C02 for the abstract message'],
                 explanation='')
-    Fs = load_configs(chk, ['K1'] + (['K2'] if tier == 'thorough' else []), required=('K1',))
+    Fs = load_configs(chk, ['K1', 'K2'], required=('K1',))
     for cfg, F in sorted(Fs.items()):
         st = [s for s in F.statics]
         chk.ob('%s/no-statics/%s' % (PID, cfg), 'storage shape', 'proved' if not st else 'refuted',
